@@ -77,6 +77,7 @@ def programs(draw):
     return {
         "ring": ring,
         "modular": draw(st.integers(0, 3)) == 0,
+        "voxel": draw(st.integers(0, 3)) == 0,
         "leaves": leaves, "reqs": reqs, "objs": objs, "dynamic": dyn,
         "mode2D": draw(st.sampled_from([False, False, True])),
         "seed": draw(st.integers(0, 10**6)),
@@ -131,6 +132,11 @@ def emit(p):
         shape = "" if p["mode2D"] else SHAPES[o["shape"]]  # 2D mode only allows boxes
         where = "in workspace" if ring else f"at ({3 * (j + 1)} + Range(0, {s}), Range(-{s}, {s}))"
         L.append(f"o{j} = new Object{vis} {where}, with requireVisible False{shape}")
+    if p.get("voxel") and not p["mode2D"]:
+        # the sampler of a VoxelRegion mixes Python's and numpy's generators
+        L.append("vox = BoxRegion(dimensions=(4, 4, 4), position=(40, 0, 2)).voxelized(pitch=0.5)")
+        L.append("v0 = new Object in vox, with allowCollisions True, with requireVisible False, "
+                 "with regionContainedIn everywhere, with width 0.1, with length 0.1, with height 0.1")
     for j, r in enumerate(p["reqs"]):
         terms = " + ".join(f"x{i}" for i in r["names"])
         bound = sum(leaves[i]["lo"] for i in r["names"]) + r["slack"]
@@ -199,6 +205,8 @@ def features(p):
         f.append("nonconvex-mesh-workspace")
     if p.get("modular"):
         f.append("modular-setup-locals")
+    if p.get("voxel") and not p["mode2D"]:
+        f.append("voxel-region-sampler")
     f.append(f"history:{p['history']}")
     return f
 
